@@ -134,6 +134,15 @@ Proof.
   split; [reflexivity|]. split; [reflexivity|]. intro H. apply (H 7); vm_compute; congruence.
 Qed.
 
+(* ... and decidable: the harness classifies every irregularity it observes by this verdict *)
+Theorem c19_side_decidable : forall c T, c19_ranges c T ->
+  (sideb (adjOf c T) T (clockRate c) = true <-> c19_side c T).
+Proof. exact side_decidable. Qed.
+Print Assumptions c19_side_decidable.
+Example c19_side_decidable_ex :
+  sideb (adjOf cfg_2997 3003) 3003 90000 = true /\ sideb (adjOf cfg_v30 3000) 3000 90000 = false.
+Proof. split; vm_compute; reflexivity. Qed.
+
 (* every non-final part holds the same number of samples; durations within 1 ns *)
 Theorem c19_same_count_partial : forall c T flags d0 s p, c19_ranges c T -> c19_side c T ->
   run c init_state (constWrites d0 T flags) = POk s -> In p (nonFinalListed s) ->
